@@ -19,6 +19,10 @@
       [sample_composition_time_offset] read as a signed 32-bit number
       (version-1 trun), 0 when the trun carries none.
 
+    A track fragment WITHOUT a track run (tfhd [+ tfdt] only; legal, e.g. with
+    the tfhd duration-is-empty flag, §8.8.7) defines no samples: the samples of
+    the other track fragments are numbered across it.
+
     Nothing below mentions a lookup function of [Track.v]; only the record
     [fragrun] (the wire fields) is used. *)
 From MP4 Require Export Track.
@@ -72,9 +76,13 @@ Definition run_samples (f : fragrun) (trex_default : N) : list (Z * N * N * N * 
 Definition sample_to_N (x : Z * N * N * N * Z) : N * N * N * N * Z :=
   let '(o, s, t, d, c) := x in (Z.to_N o, s, t, d, c).
 
+(** the samples of one track fragment: those of its run; none when it has no run *)
+Definition frag_samples (f : fragrun) (trex_default : N) : list (Z * N * N * N * Z) :=
+  if fr_has_trun f then run_samples f trex_default else [].
+
 (** (offset, size, start, duration, cts) of every sample of the track, in sample-number order *)
 Definition frag_expand (fs : list fragrun) (trex_default : N) : list (N * N * N * N * Z) :=
-  flat_map (fun f => map sample_to_N (run_samples f trex_default)) fs.
+  flat_map (fun f => map sample_to_N (frag_samples f trex_default)) fs.
 
 (** ** What a well-formed fragmented track looks like *)
 
@@ -83,22 +91,28 @@ Definition all_below (W : N) (l : list N) : bool := forallb (fun x => x <? W) l.
 Definition opt_below (W : N) (o : option N) : bool :=
   match o with Some x => x <? W | None => true end.
 
-Definition run_consistent (trex_default : N) (f : fragrun) : bool :=
-  (* a trun is present, with one size per sample *)
-  fr_has_trun f
-  && (lenN (fr_sizes f) =? fr_sample_count f)
+Definition is_nil {A} (l : list A) : bool := match l with [] => true | _ => false end.
+
+(** the track-fragment header fields (tfhd, tfdt, position of the moof) fit their wire widths *)
+Definition header_fits (f : fragrun) : bool :=
+  (fr_moof_offset f <? U64)
+  && opt_below U64 (fr_base_data_offset f)
+  && opt_below U32 (fr_default_duration f)
+  && opt_below U64 (fr_tfdt f).
+
+(** a track fragment with a track run *)
+Definition with_run_consistent (trex_default : N) (f : fragrun) : bool :=
+  (* one size per sample *)
+  (lenN (fr_sizes f) =? fr_sample_count f)
   (* per-sample durations exactly when the flag says so *)
   && (if run_has_durations f then lenN (fr_durations f) =? fr_sample_count f
-      else match fr_durations f with [] => true | _ => false end)
+      else is_nil (fr_durations f))
   (* per-sample composition offsets for all samples or for none *)
   && (match fr_cts f with [] => true | l => lenN l =? fr_sample_count f end)
   (* a decode-time box is present *)
   && (match fr_tfdt f with Some _ => true | None => false end)
   (* every field fits its wire width *)
-  && (fr_moof_offset f <? U64)
-  && opt_below U64 (fr_base_data_offset f)
-  && opt_below U32 (fr_default_duration f)
-  && opt_below U64 (fr_tfdt f)
+  && header_fits f
   && (fr_flags f <? U24)
   && (fr_sample_count f <? U32)
   && (match fr_data_offset f with Some d => fits_signed 32 d | None => true end)
@@ -109,6 +123,20 @@ Definition run_consistent (trex_default : N) (f : fragrun) : bool :=
   && forallb (fun x => let '(o, _, t, _, _) := x in
                        (0 <=? o)%Z && (o <? Z.of_N U64)%Z && (t <? U64))
              (run_samples f trex_default).
+
+(** a track fragment without a track run carries no run data (the view of such a traf has
+    zero / empty run fields); a decode-time box is not required *)
+Definition without_run_consistent (f : fragrun) : bool :=
+  (fr_sample_count f =? 0)
+  && is_nil (fr_sizes f)
+  && is_nil (fr_durations f)
+  && is_nil (fr_cts f)
+  && (fr_flags f =? 0)
+  && (match fr_data_offset f with None => true | Some _ => false end)
+  && header_fits f.
+
+Definition run_consistent (trex_default : N) (f : fragrun) : bool :=
+  if fr_has_trun f then with_run_consistent trex_default f else without_run_consistent f.
 
 Definition frag_consistent (fs : list fragrun) (trex_default : N) : bool :=
   (trex_default <? U32)
